@@ -125,3 +125,92 @@ Proof.
     + auto.
   - intros y Sy. unfold upd. destruct (y =? x) eqn:E; [apply N.eqb_eq in E; subst; congruence|auto].
 Qed.
+
+(* ---- code with unresolved `break` holes: what the chunk holds is the code as resolved by the
+   enclosing loop (end ip [brk]) *)
+Definition is_hole (i : instr) : bool := match i with IHole _ => true | _ => false end.
+
+Definition cares (prog : code) (brk pc : N) (c : code) : Prop :=
+  exists c', resolve brk c = OK c' /\ code_at prog pc c'.
+
+Lemma resolve_app_1 : forall b c1 c2 c', resolve b (c1 ++ c2) = OK c' ->
+  exists c1' c2', resolve b c1 = OK c1' /\ resolve b c2 = OK c2' /\ c' = c1' ++ c2'.
+Proof.
+  induction c1; intros c2 c' H.
+  { exists [], c'. cbn [app] in H. splits; auto. }
+  cbn [app resolve] in H |- *.
+  destruct (resolve b (c1 ++ c2)) as [r|] eqn:R; [|discriminate].
+  apply IHc1 in R. destruct R as (c1' & c2' & R1 & R2 & ->). rewrite R1.
+  destruct a; try (inversion H; subst; eexists; eexists; splits; eauto; reflexivity).
+  destruct (b - p - 2 <=? 65535); [|discriminate]. inversion H; subst.
+  eexists; eexists; splits; eauto; reflexivity.
+Qed.
+
+Lemma resolve_app_2 : forall b c1 c2 c1' c2', resolve b c1 = OK c1' -> resolve b c2 = OK c2' ->
+  resolve b (c1 ++ c2) = OK (c1' ++ c2').
+Proof.
+  induction c1; intros c2 c1' c2' H1 H2.
+  { cbn in H1. inversion H1; subst. exact H2. }
+  cbn [app resolve] in H1 |- *.
+  destruct (resolve b c1) as [r1|] eqn:R1; [|discriminate].
+  rewrite (IHc1 c2 r1 c2' eq_refl H2).
+  destruct a; try (inversion H1; subst; reflexivity).
+  destruct (b - p - 2 <=? 65535); [|discriminate]. inversion H1; subst. reflexivity.
+Qed.
+
+Lemma resolve_size : forall b c c', resolve b c = OK c' -> code_size c' = code_size c.
+Proof.
+  induction c; intros c' H; cbn [resolve] in H; [inversion H; reflexivity|].
+  destruct (resolve b c) as [r|] eqn:R; [|discriminate]. specialize (IHc _ eq_refl).
+  destruct a; try (inversion H; subst; cbn [code_size]; rewrite IHc; reflexivity).
+  destruct (b - p - 2 <=? 65535); [|discriminate]. inversion H; subst. cbn [code_size size]. rewrite IHc. reflexivity.
+Qed.
+
+Lemma cares_app : forall prog brk pc c1 c2,
+  cares prog brk pc (c1 ++ c2) <-> cares prog brk pc c1 /\ cares prog brk (pc + code_size c1) c2.
+Proof.
+  intros. unfold cares. split.
+  - intros (c' & R & CA). apply resolve_app_1 in R. destruct R as (c1' & c2' & R1 & R2 & ->).
+    apply code_at_app in CA. destruct CA as [CA1 CA2]. rewrite (resolve_size _ _ _ R1) in CA2. split; eauto.
+  - intros [(c1' & R1 & CA1) (c2' & R2 & CA2)]. exists (c1' ++ c2'). split.
+    + apply resolve_app_2; assumption.
+    + apply code_at_app. rewrite (resolve_size _ _ _ R1). auto.
+Qed.
+
+Lemma resolve_one : forall b i, is_hole i = false -> resolve b [i] = OK [i].
+Proof. intros b i H. destruct i; try reflexivity. discriminate. Qed.
+
+Lemma cares_one : forall prog brk pc i, is_hole i = false -> cares prog brk pc [i] -> code_at prog pc [i].
+Proof. intros prog brk pc i H (c' & R & CA). rewrite resolve_one in R by assumption. inversion R; subst. assumption. Qed.
+
+Lemma cares_cons : forall prog brk pc i c, is_hole i = false ->
+  cares prog brk pc (i :: c) -> code_at prog pc [i] /\ cares prog brk (pc + size i) c.
+Proof.
+  intros prog brk pc i c H CA. change (i :: c) with ([i] ++ c) in CA. apply cares_app in CA.
+  destruct CA as [CA1 CA2]. split; [eapply cares_one; eauto|].
+  cbn [code_size] in CA2. rewrite N.add_0_r in CA2. exact CA2.
+Qed.
+
+Lemma cares_hole : forall prog brk pc p, cares prog brk pc [IHole p] ->
+  code_at prog pc [IJump (brk - p - 2)] /\ brk - p - 2 <= 65535.
+Proof.
+  intros prog brk pc p (c' & R & CA). cbn [resolve] in R.
+  destruct (brk - p - 2 <=? 65535) eqn:E; [|discriminate]. inversion R; subst.
+  apply N.leb_le in E. auto.
+Qed.
+
+Lemma resolve_idem : forall b c c', resolve b c = OK c' -> forall b2, resolve b2 c' = OK c'.
+Proof.
+  induction c; intros c' H b2; cbn [resolve] in H; [inversion H; reflexivity|].
+  destruct (resolve b c) as [r|] eqn:R; [|discriminate]. specialize (IHc _ eq_refl b2).
+  destruct a; try (inversion H; subst; cbn [resolve]; rewrite IHc; reflexivity).
+  destruct (b - p - 2 <=? 65535); [|discriminate]. inversion H; subst. cbn [resolve]. rewrite IHc. reflexivity.
+Qed.
+
+(* code resolved by an inner loop sits in the chunk as it is, whatever the outer loop resolves *)
+Lemma cares_resolved : forall prog b c c' brk pc, resolve b c = OK c' ->
+  cares prog brk pc c' -> cares prog b pc c.
+Proof.
+  intros prog b c c' brk pc R (c'' & R2 & CA). rewrite (resolve_idem _ _ _ R brk) in R2.
+  inversion R2; subst. exists c''. auto.
+Qed.
